@@ -60,6 +60,8 @@ type Gen struct {
 	closures  map[string]closureInfo
 	fnByConst map[string]*ssa.Function
 	cellFn      map[string]closureInfo
+	cellLog     map[string]cellStore // version of a cell component -> the store that produced it
+	allocCanon  map[string]string    // names of allocation results (ref!N and the SSA value defined as it) -> ref!N
 	frameOn      bool
 	frameAllowed map[string][]string
 	frameNow0    string
@@ -72,6 +74,7 @@ type Gen struct {
 	tblOK        map[string]bool
 	nextBound    string
 	regions     []knownFinding
+	callArgs    []Arg // operands of the call a callsite clause is being checked at (callarg0, callarg1, ...)
 	regionTerms map[string]string
 }
 
